@@ -169,6 +169,15 @@ def run(ctx: Context) -> None:
         ctx.need('R17.2', len(rets) == 1, "format_time_units_for_ems has one return", fi)
         units_tokens = fstring_tokens(flow, rets[0].value)
         ctx.need('R17.2', units_tokens is not None and len(units_tokens) >= 5, "the new unit string is an f-string", fi)
+        # the offset may be a string of its own (`{offset_string}`) or written out at the end of the unit string:
+        # sign, hours, ':', minutes.  Both read as one trailing offset field.
+        offset_tokens = None
+        if units_tokens[-1][0] == 'field' and units_tokens[-1][2] is None:
+            offset_tokens = fstring_tokens(flow, units_tokens[-1][1])
+        if (offset_tokens is None or len(offset_tokens) != 4) and len(units_tokens) >= 9 and [t[0] for t in units_tokens[-4:]] == ['field', 'field', 'lit', 'field'] \
+                and units_tokens[-5] == ('lit', ' '):
+            offset_tokens = units_tokens[-4:]
+            units_tokens = units_tokens[:-4] + [('field', ast.Constant(value='<offset written out>'), None, -1)]
         lits = [t[1] for t in units_tokens if t[0] == 'lit']
         # '<period> since <epoch pieces> <offset>': the epoch may be written by several fields of one datetime
         ok_shape = (len(units_tokens) >= 5 and units_tokens[0][0] == 'field' and units_tokens[1] == ('lit', ' since ') and units_tokens[-1][0] == 'field'
@@ -221,7 +230,7 @@ def run(ctx: Context) -> None:
                 ok_epoch = ok_tz and ok_rep and ok_ref
             ctx.check('R17.2', ok_epoch, "the epoch is the original reference instant expressed in the parsed offset (unsigned change: FixedOffset(offset))", fi, rets[0],
                       construct=f"epoch = {norm_text(ev)}")
-            otoks = fstring_tokens(flow, offset[1])
+            otoks = offset_tokens
             ok_off = False
             detail = norm_text(flow.resolve(offset[1]))
             if otoks is not None and len(otoks) == 4 and [t[0] for t in otoks] == ['field', 'field', 'lit', 'field'] and otoks[2][1] == ':':
@@ -320,7 +329,8 @@ def run(ctx: Context) -> None:
                     builder, it_, tgt_, slot, first = loops[0].body, loops[0].iter, loops[0].target, st_c.value.id, loops[0]
             why = 'the way the encoding argument is rebuilt is not understood'
             if builder is not None and isinstance(tgt_, ast.Tuple) and len(tgt_.elts) == 2 and all(isinstance(e_, ast.Name) for e_ in tgt_.elts) \
-                    and norm_text(it_) == f"{kwn}['encoding'].items()":
+                    and isinstance(it_, ast.Call) and isinstance(it_.func, ast.Attribute) and it_.func.attr == 'items' and not it_.args \
+                    and norm_text(tflow.resolve(it_.func.value)) in (f"{kwn}['encoding']", f"{kwn}.get('encoding')"):
                 k_, v_ = tgt_.elts[0].id, tgt_.elts[1].id
                 a_known = f"{k_} in {copy_name}.variables"
                 a_marker = f"{copy_name}.variables[{k_}].encoding.get('_FillValue', 0) is None"
